@@ -2,6 +2,7 @@
 """Regenerate the seeded-change table of DESIGN.md section 10 from /verif/seeded/*/meta.json."""
 import json, glob, os, re
 NOTES = {
+ "C08b-start-readied-skips-check": "missed at first by C08 (C04 caught it): no framer was readied and later started under a guard that flips; guarded-start family added to C08",
  "C02d-stamp-by-multiplication": "missed at first by C02 (C11 caught it): the reference scheduler followed the observed stamps; the statement's `every tick when p does not exceed the tick` clause is now binding on decimal grids too (20-tick horizons)",
  "C16d-continuation-two-phase": "missed at first: blank/comment lines were only inserted before the first continuation line; fillers between every pair of continuation lines added",
  "C14d-marker-dedupe-unresolved-actor": "missed at first by C14 (C20 caught it): frames named by `in frame` had no enter actions; scaffold frames (earlier/same/later) now carry them",
